@@ -59,6 +59,27 @@ def phase_d_marginal(m, classes, ys, xss):
     return tot
 
 
+def em_d_update(m, classes, ys, xss):
+    """The exact EM step of the D phase, coordinate by coordinate: D'_j = sum_i G_ij E[z_ij] / sum_i N_ij E[z_ij^2] (posterior under the current D)."""
+    D = m.ubm.means.shape[1]
+    sig, mu = m.ubm.variances.flatten(), m.ubm.means.flatten()
+    Dv = np.asarray(m.D, dtype=float)
+    num, den = np.zeros_like(mu), np.zeros_like(mu)
+    for Xi, y, xs in zip(classes, ys, xss):
+        base = mu + np.asarray(m.V) @ y
+        N = np.zeros_like(mu)
+        G = np.zeros_like(mu)
+        for h, s in enumerate(Xi):
+            n = np.repeat(np.asarray(s.n), D)
+            N += n
+            G += np.asarray(s.sum_px).flatten() - n * (base + np.asarray(m.U) @ xs[:, h])
+        P = 1 + Dv * Dv * N / sig
+        zb = Dv * G / sig / P
+        num += G * zb
+        den += N * (1.0 / P + zb * zb)
+    return num, den
+
+
 def run(chk):
     chk.prove()
     r = gen.rng(chk.seed, "C09")
@@ -88,6 +109,13 @@ def run(chk):
         tolr = 1e-8
         # ---- step the public per-phase functions and watch the phase marginal
         n_acc, f_acc = m.initialize(X, y, n_classes=K)
+        if i % 3 != 0:
+            # "all initial U, V, D": entries of either sign and other magnitudes than the seeded defaults
+            g0 = gen.nprng(r)
+            m.D = np.asarray(m.D) * g0.choice([-1.0, 1.0], size=np.asarray(m.D).shape) * g0.uniform(0.5, 3.0, size=np.asarray(m.D).shape)
+            if i % 3 == 2:
+                m.U = np.asarray(m.U) * g0.uniform(-2.0, 2.0)
+                m.V = np.asarray(m.V) * g0.uniform(-2.0, 2.0)
         okv = True
         prev = phase_v_marginal(m, classes)
         traj = {"V": [prev], "U": [], "D": []}
@@ -130,7 +158,14 @@ def run(chk):
         prev = phase_d_marginal(m, classes, ys, xss)
         traj["D"].append(prev)
         for k in range(iters + 2):
+            num_d, den_d = em_d_update(m, classes, ys, xss)
             m.m_step_d([m.e_step_d(X, y, per, lx, ly, n_acc, f_acc)])
+            if np.all(den_d > 0):
+                want_d = num_d / den_d
+                if not np.allclose(np.asarray(m.D), want_d, rtol=1e-7, atol=1e-10 * (1 + np.abs(want_d).max())):
+                    chk.fail("D phase: after E/M iteration %d D is not the exact EM update sum_i G_ij E[z_ij] / sum_i N_ij E[z_ij^2] (entries of either sign allowed)" % (k + 1),
+                             dict(ctx, phase="D", got=hexlist(m.D), want=hexlist(want_d)))
+                    break
             cur = phase_d_marginal(m, classes, ys, xss)
             traj["D"].append(cur)
             if not cur >= prev - tolr * max(1.0, abs(prev)):
